@@ -18,6 +18,9 @@ EXPLANATION = (
     'converters; the reader exposes bytes 960:980 (= sha1 digest size). C20.3: what is hashed is a .copy() '
     '(C-contiguous) of a slice of a float32 buffer. C20.4: the re-blocker starts from a copy of the source header and '
     'stores nothing into 960:980.')
+EXPLANATION += (
+    ' ADDED: Every hash-update site is checked separately (alternative branches allowed, two sites on one path are not); a site that hashes the whole group buffer is a violation; the per-group count is decided semantically (rule of C01.9); a local alias of the region is followed.'
+)
 ASSUMPTIONS = ['hashlib sha1; numpy .copy() yields C-contiguous float32 bytes; producers run on the calling thread in group order (C16)']
 NOT_DECIDED = 'Equality with SHA-1 of the source samples (values); equality between the two SEG-Y readers (segyio semantics).'
 
